@@ -16,7 +16,15 @@ PUNCT = set(";{}(),[]")
 def I(v): return {"k": "int", "v": v}
 def F(txt): return {"k": "float", "txt": txt}
 def V(n): return {"k": "id", "n": n}
-def B(op, l, r): return {"k": "bin", "op": op, "l": l, "r": r}
+def _B(op, l, r): return {"k": "bin", "op": op, "l": l, "r": r}
+def B(op, l, r):
+    """binary node; operands are parenthesised exactly where the declared precedence and left associativity would
+    otherwise regroup them, so the rendered text parses back to this tree"""
+    if l["k"] == "bin" and LEVEL[l["op"]] < LEVEL[op]:
+        l = P(l)
+    if r["k"] == "bin" and LEVEL[r["op"]] <= LEVEL[op]:
+        r = P(r)
+    return _B(op, l, r)
 def P(e): return {"k": "par", "e": e}
 def A(l, r, op="="): return {"k": "assign", "op": op, "l": l, "r": r}
 def Pre(op, n): return {"k": "pre", "op": op, "n": n}
@@ -299,9 +307,7 @@ def canon_bin(op, l, r):
         l = P(l)
     if r["k"] == "bin" and LEVEL[r["op"]] <= LEVEL[op]:
         r = P(r)
-    if l["k"] == "assign":
-        l = l  # never generated
-    return B(op, l, r)
+    return _B(op, l, r)
 
 
 # ------------------------------------------------------------------ loose generator (syntactically valid programs)
